@@ -160,6 +160,20 @@ Theorem C13_spinner_rejected :
 Proof. exact spinner_rejected. Qed.
 Print Assumptions C13_spinner_rejected.
 
+(* periodic services stay periodic: a loop accepted by the checker has no case on the channel of a
+   timer that is made once (time.NewTimer before the loop) and never re-armed inside it - such a case
+   can be taken once only, and a sweeper built on it runs a single period (the translator marks the
+   shape, the checker rejects it; the code store's sweeper is also run over three of its periods) *)
+Theorem C13_no_oneshot_timer_case :
+  forall l c, loop_ok l = true -> In c (cases l) -> is_oneshot c = false.
+Proof. exact no_oneshot_case. Qed.
+Print Assumptions C13_no_oneshot_timer_case.
+
+Example C13_oneshot_timer_rejected :
+  loop_ok (mkloop "sweeper" true false [mkcase "c.closed" Return; mkcase "oneshot:timer.C" Fall]) = false /\
+  loop_ok (mkloop "sweeper" true false [mkcase "c.closed" Return; mkcase "time.After(d)" Fall]) = true.
+Proof. vm_compute. split; reflexivity. Qed.
+
 (* "no worker is left spinning", the other half: with nothing ready a checked loop sleeps in its
    select (it has no default arm), it does not poll *)
 Theorem C13_idle_blocks : forall l, loop_ok l = true -> blocks l [] = true.
